@@ -99,4 +99,27 @@ CHECKS = {
              "requires byte-identical `text conv` output, equal success, and the meaning Conv.tla computes (an accepted accidental is honoured).",
         note=TB,
         technique="TLA+ lexer/converter specification + TLC validation of variant pairs run through the real CLI"),
+    "C09": dict(
+        category="model_checking",
+        text="Runs.tla states the outcome protocol (terminates, no panic/fatal/signal, success xor non-zero exit + diagnostic + empty stdout) and the "
+             "nonsense x delivery channel x interpreting stage matrix (RunsMC enumerates it; the driver's cells must cover every live cell); LexerMC proves "
+             "every scan loop of the lexer model ends at end of input. Every run of the real binary is judged by TLC: all matrix cells with several concrete "
+             "renderings, and seeded byte-level exploration (truncation of valid inputs at every offset, mutations, random bytes, invalid UTF-8, over-long "
+             "inputs, stdin and FILE, flag values, broken dictionary files) under a watchdog. The arbitrary-bytes part is exploration, not exhaustive.",
+        note=TB + "; a hang is only reported after the run also failed to return alone with a 40 s watchdog",
+        technique="TLA+ outcome protocol + matrix (Runs.tla) as trace specification; TLC validates every real CLI run"),
+    "C10": dict(
+        text="The YAML hop is the identity on abstract instances: for seeded valid texts, `text conv | write` must play exactly the piece Piece.tla assigns "
+             "to the instances Conv.tla computes from the text (C01/C02/C07 predicates reused); every value of every scalar field (384 interval notations "
+             "as degree and base, 28 keys, 456 fractions/meters, 6 dynamics, bpm) survives `write parse`; `write conv -c cmt | write` = `write` plus one "
+             "text event per chord. TheoryMC gives Parse(Print(x)) = x on the model side.",
+        note=TB,
+        technique="TLA+ composition Conv.tla -> Piece.tla as oracle; TLC validates both real stages end to end"),
+    "C12": dict(
+        text="IterVisitor.tla (PlusCal) models the only concurrency in crd - producer goroutine, bounded channel, consumer with early exit and drain - and "
+             "TLC explores every interleaving (trees of 6 nodes, capacity 1..2, stop at any node or never): document order, exact prefix, no leaked "
+             "producer, termination. Every data-producing command is run k times (8 quick / 40 thorough) across GOMAXPROCS 1/2/4/16, --debug, stdin/-/FILE, "
+             "stdout/-o (thorough: -race build too); TLC requires one (success, sha-256) per request class, and --debug runs equal to plain runs.",
+        note=TB + "; a 2-way order flip escapes k repetitions with probability 2^-(k-1)",
+        technique="PlusCal model of the iterator (exhaustive interleavings) + TLC validation of repeated-run histories of the real CLI"),
 }
